@@ -67,7 +67,7 @@ fn slot_style(slot: u8, c: MColor) -> MStyle {
 /// 16-colour values in all three slots (all 48 cases)
 #[cfg_attr(kani, kani::proof, kani::unwind(21))]
 #[cfg_attr(not(kani), test)]
-fn render_buffer_ansi() {
+fn render_buffer_ansi16() {
     let i = vk::any_u8_in(0, 15);
     let c = ansi_from_index(i);
     let slot = vk::any_u8_in(0, 2);
